@@ -748,6 +748,7 @@ def one_case(ctx, i, pinned=None):
         return ctx.inconclusive("watchdog: dependency library link")
     owned = set(case["order"])
     M = Model(case, b)
+    ctx.note("cases-run")
     ctx.note("kind:" + case["kind"])
     for o in case["opts"]:
         ctx.note("opt:" + (o[0] if o[0] != "strip" else o[1]))
@@ -1157,7 +1158,7 @@ def all_values_in_sections(e):
     bad = []
     loads = e.loads()
     lo = min((p.vaddr for p in loads), default=0)
-    first = min((s.addr for s in e.sections if s.alloc and s.addr), default=0)
+    first = min((s.addr for s in e.sections if s.index and s.alloc and s.addr and s.type != E.SHT_NULL), default=0)
     for sy in e.symtab():
         if sy.type in (E.STT_SECTION, E.STT_FILE) or not sy.name:
             continue
